@@ -66,6 +66,19 @@ class Ctx:
             self.unverified(rule, construct, str(e), site)
             return None
 
+    def step(self, fn, *args, **kw) -> Any:
+        """Run one group of rules.  On the reference tree an analysis failure is the checker's fault (exit 2).  On a
+        changed tree a rule that cannot find or read its sites gives no verdict for them: UNVERIFIED, the other groups
+        still run."""
+        from . import sem
+        try:
+            return fn(*args, **kw)
+        except (core.AnchorMissing, core.Unsupported, AnalysisError, KeyError, IndexError, AttributeError, TypeError, ValueError, AssertionError) as e:
+            if sem.reference_available() and sem.changed_files():
+                self.unverified("STEP", getattr(fn, "__qualname__", str(fn)), f"{type(e).__name__}: {e}"[:300])
+                return None
+            raise
+
     def expect_min(self, rule_prefix: str, n: int) -> None:
         """Pin the number of instances confirmed by hand on the reference tree."""
         self.minimums[rule_prefix] = n
@@ -94,12 +107,18 @@ def finish(ctx: Ctx, level: str = "other") -> int:
         (knowns if (o.rule, o.construct) in known_keys else violations).append(o)
 
     if not violations:   # a rule that lost its sites must not pass vacuously
+        from . import sem
+        changed = sem.changed_files() if sem.reference_available() else []
         for prefix, n in ctx.minimums.items():
             got = sum(1 for o in ctx.obs if o.rule.startswith(prefix))
             if got < n:
-                raise AnalysisError(
-                    f"rule {prefix} matched {got} instances, fewer than the {n} confirmed on the reference tree "
-                    f"(the rule no longer sees its sites)")
+                msg = (f"rule {prefix} matched {got} instances, fewer than the {n} confirmed on the reference tree "
+                       f"(the rule no longer sees its sites)")
+                if not changed:
+                    # the analysed sources are the reference sources: the checker itself is broken
+                    raise AnalysisError(msg)
+                # a changed tree: the sites were restructured beyond what the rule recognises - no verdict on them
+                ctx.unverified(prefix, "instance-count", msg + f"; changed files: {changed[:6]}")
 
     for o in knowns:
         k = known_keys[(o.rule, o.construct)]
